@@ -180,6 +180,32 @@ def rule_u2(ctx):
             res.ok({"function": "get_cached", "gate": v, "verdict": "swapped operand order is looked up too"})
         else:
             res.bad(Finding("U2", gc.id, "%s lookup is not commutative" % v, "get_cached does not look (y, x) up for %s gates: duplicate pairs in the other order are emitted" % v, gc.fn["sp"]))
+    # ... on every path on which the direct lookup missed (a guard on the swapped lookup leaves one order unshared)
+    first = [(b, t) for b, t in gc.calls() if mir.last_seg(mir.callee(t) or "") == "get" and any(r == ("arg", 2) and not p for (r, p) in gc.trace_operand(t["args"][1]))]
+    rets = [b for b in range(gc.n) if gc.term(b) and gc.term(b)["k"] == "return"]
+    if len(first) != 1 or not rets:
+        if not res.findings:
+            raise AnchorMissing("U2: get_cached no longer starts with one direct lookup of the requested gate")
+    else:
+        fb, ft = first[0]
+        hit = {x for (_, x) in C02._some_edges(gc, ft)}
+        for v in ("And", "Xor"):
+            sw = set()
+            for b, blk in enumerate(gc.blocks):
+                for st in blk["stmts"]:
+                    if st["k"] == "assign" and st["rv"]["k"] == "aggregate" and st["rv"].get("adt") == "circuit::BuilderGate" and st["rv"]["variant"] == v:
+                        t2 = gc.term(b)
+                        if t2 and t2["k"] == "call" and mir.last_seg(mir.callee(t2) or "") == "get":
+                            sw.add(b)
+            if not sw:
+                continue
+            succ = gc.pruned_succ({(("arg", 2), ()): v})
+            w = gc.path(gc.succs(fb)[0], rets, blocked=sw | hit, succ=succ)
+            if w:
+                res.bad(Finding("U2", gc.id, "%s: swapped lookup is skipped on some path" % v,
+                                "after the direct lookup missed, a path returns without looking (y, x) up (blocks %s): a gate first built in the other order is built again" % w, gc.term(sorted(sw)[0])["sp"]))
+            else:
+                res.ok({"function": "get_cached", "gate": v, "verdict": "the swapped lookup lies on every path after a miss"})
     # the cache is filled for every emitted gate
     pg = ctx.body(PUSH_GATE)
     ins = [b for b, t in pg.calls() if mir.last_seg(mir.callee(t) or "") == "insert" and any(p and p[-1] == "cache" for (r, p) in pg.trace_operand(t["args"][0]))]
